@@ -539,8 +539,17 @@ def verdicts(case, reply, k):
     return reply[1][k], {}
 
 
+_REPORTED: set = set()
+
+
 def _fail(ctx, fn, klass, what, rep):
+    """Every failure is counted; one replay per (function, class) and run is written, so that each
+    distinct defect gets a VIOLATION line before core's cap on written replays is reached."""
     ctx.count(f"fail:{fn}:{klass}")
+    key = (id(ctx), fn, klass)
+    if key in _REPORTED:
+        return True
+    _REPORTED.add(key)
     return ctx.fail(fn, klass, what, rep)
 
 
@@ -694,7 +703,7 @@ def run_cases(ctx, cases):
 def run(ctx, budget):
     ctx.cov["rule"] = RULE
     cases = list(edge_cases()) + [c["case"] for c in core.load_corpus("C12")]
-    per_fn = 450 * budget
+    per_fn = (450 if ctx.tier == "quick" else 1500) * budget
     for i in range(per_fn):
         for fn in FUNCS:
             cases.append(gen_case(ctx.rng, fn, big=(ctx.tier == "thorough" and i % 3 == 0)))
